@@ -165,6 +165,22 @@ end
 def renderPoint (p : Point α) : List (Tok α) :=
   [.ident "Point", .lp] ++ joinComma (p.map fun (x, v) => [.ident x, .eqs, .num v]) ++ [.rp]
 
+/-- tokens of a printed point: those of expressions plus what the dictionary form needs -/
+inductive PTok (α : Type) where
+  | tok (t : Tok α) | star2 | lb | rb | colon
+
+/-- `Point._to_string` after fix F4: `kw name` says that keyword-argument syntax can express the name
+(an identifier, not a reserved word, unchanged by NFKC normalisation — `_can_be_written_as_keyword`).
+If every name can be written as a keyword the point prints as `Point(x=1, y=2)`, otherwise as
+`Point(**{"x": 1, "1y": 2})`. -/
+def renderPointWith (kw : String → Bool) (p : Point α) : List (PTok α) :=
+  if p.all (fun xv => kw xv.1) then (renderPoint p).map .tok
+  else
+    [.tok (.ident "Point"), .tok .lp, .star2, .lb]
+      ++ (joinComma (p.map fun (x, v) => [Tok.str x, Tok.eqs, Tok.num v])).map
+          (fun t => match t with | .eqs => PTok.colon | t => .tok t)
+      ++ [.rb, .tok .rp]
+
 def renderPartial (e : Expr α) (x : String) : List (Tok α) :=
   [.ident "Partial", .lp] ++ render e ++ [.comma, .ident "Variable", .lp, .str x, .rp, .rp]
 def renderDerivative (e : Expr α) : List (Tok α) := [.ident "Derivative", .lp] ++ render e ++ [.rp]
